@@ -50,6 +50,7 @@ pub proof fn lemma_prefix_decides(p: Seq<u8>, u: Seq<u8>, index: int)
         spec_parse_serial(p, index) == spec_parse_serial(u, index), // O:lemma.prefix_decides.serial
         sh_pat(p, 0) == sh_pat(u, 0),
 {
+    reveal(spec_parse_storage); reveal(spec_parse_serial);
     if p.len() == u.len() {
         assert(p =~= u);
     } else {
